@@ -562,4 +562,7 @@ def rules(repo: Repo, tier: str) -> List[RuleResult]:
     out.append(c06.rule_range(repo, "C03.range", APPLY, ("GroundedEffect",)))
     out.append(c06.rule_conform(repo, "C03.conform", only_funcs=(APPLY,), floor=0))
     out.append(c07.rule_escape(repo, "C03.escape"))
+    # every effect group of the schema is instantiated (a `when` group with only numeric consequents is an effect group too)
+    from . import c20
+    out.append(c20.rule_complete(repo).as_rule("C03.ground.complete"))
     return out
